@@ -628,11 +628,25 @@ def check(pid, tier, seed):
             side_viol = sr[P['side'] + '_failures']
             side_info = dict(kind=P['side'], scenarios=sr[P['side'] + '_scenarios'], builds=['debug', 'release'])
 
+    big_info = None
+    big_viol = []
+    if P.get('big'):
+        br = side_probe.run_big(REPO, CACHE)
+        if br['error']:
+            broken.append(('build', 'big probe: ' + br['error']))
+        else:
+            big_viol = br['failures']
+            big_info = dict(archetypes=256, builds=br['builds'])
+
     violations = []
     known_hits = []
     kf = known_findings()
     for v in c18_viol:
         path = write_replay(pid, dict(property=pid, kind='specification-violation', harness='c18', detail=v, broken=broken))
+        violations.append('VIOLATION property=%s replay=%s' % (pid, path))
+    for v in big_viol[:2]:
+        path = write_replay(pid, dict(property=pid, kind='specification-violation', harness='big_probe', reason=v, broken=broken,
+                                      how='harness/big_probe: a world with 256 archetypes (ids 0..=255), events feature; see the header of its main.rs'))
         violations.append('VIOLATION property=%s replay=%s' % (pid, path))
     for v in side_viol[:3]:
         path = write_replay(pid, dict(property=pid, kind='specification-violation', harness='side_probe', which=P['side'], reason=v, seed=seed, broken=broken,
@@ -821,14 +835,14 @@ def check(pid, tier, seed):
             trusted_base=['Coq 8.16.1 kernel incl. vm_compute', 'tools/extract.py (translator)', 'correspondence harness (harness/storage_harness, tools/gen_ops.py, tools/coqrun.py)',
                           'rustc/cargo', 'axioms: ' + (', '.join(axioms) if axioms else 'none (Closed under the global context)')],
             theorems=thms, cone_files=conefiles,
-            evaluations=total_cases + (side_info['scenarios'] if side_info else 0) + (1 if fill_info else 0) + (cfgp_info['pairs_compiled_and_compared'] if cfgp_info else 0) + (macro_info['cases'] if macro_info else 0) + ((c18_info['programs'] + c18_info['expansions_checked']) if c18_info else 0),
+            evaluations=total_cases + (big_info['builds'] if big_info else 0) + (side_info['scenarios'] if side_info else 0) + (1 if fill_info else 0) + (cfgp_info['pairs_compiled_and_compared'] if cfgp_info else 0) + (macro_info['cases'] if macro_info else 0) + ((c18_info['programs'] + c18_info['expansions_checked']) if c18_info else 0),
             distinct_nontrivial=len(distinct) + (macro_info['distinct'] if macro_info else 0) + ((c18_info['programs'] + c18_info['expansions_checked']) if c18_info else 0),
             rule='histories generated interactively from VERIF_SEED per stream; non-trivial = at least 10 operations including every kind in %s; distinct by the hash of the operation list' % sorted(need),
             traces_validated_against_impl=total_cases,
             model_disagreements=len(diffs), spec_failures=len(own),
             streams=[dict(config=cn, cases=s['cases'], ops=s['ops'], histories_meeting_run_theorem_hypotheses=s.get('wf_histories', 0), histories_meeting_history_theorem_hypotheses=s.get('hist_histories', 0), ops_by_kind=s['by_kind'], outcomes=s['outcomes']) for cn, s in stats_all],
             samples=([sample] if sample else []) + ([macro_info['sample']] if macro_info else []),
-            macro=macro_info, c18=c18_info, fill=fill_info, side_probe=side_info, cfg_probe=cfgp_info, coqchk=coqchk_note, programs=(c18_info['programs'] if c18_info else 0),
+            macro=macro_info, c18=c18_info, fill=fill_info, big_world=big_info, side_probe=side_info, cfg_probe=cfgp_info, coqchk=coqchk_note, programs=(c18_info['programs'] if c18_info else 0),
             exhaustive=any(r['case'].get('exhaustive') for r in all_results) if pid == 'C11' else False,
             explanation='machine-checked theorems over the model; model tied to the source by translation (coq/gen regenerated this run) and by differential execution of the same operations on the implementation',
         ),
@@ -869,6 +883,14 @@ def replay(path):
                         return 1
             return 0
         print(json.dumps(d, indent=1))
+        return 0
+    if j.get('harness') == 'big_probe':
+        br = side_probe.run_big(REPO, CACHE)
+        print('recorded:', j['reason'])
+        print('now:', br['failures'] or 'as expected', br['error'] or '')
+        if br['failures']:
+            print('VIOLATION property=%s replay=%s' % (pid, path))
+            return 1
         return 0
     if j.get('harness') == 'side_probe':
         sr = side_probe.run(REPO, CACHE, j['seed'], 40)
